@@ -244,6 +244,8 @@ func (tr *Trans) loopFrame(li *loopInfo, mod map[string]bool, st *State, cond Te
 	if all || g.topTr == nil {
 		return
 	}
+	groups := map[string][]Term{}
+	var order []string
 	for _, key := range sortedKeys(mod) {
 		sort, ok := g.touchedAll[key]
 		if !ok || keyIsLocal(key) || key == "$wm" {
@@ -282,9 +284,27 @@ func (tr *Trans) loopFrame(li *loopInfo, mod map[string]bool, st *State, cond Te
 		if !ok {
 			continue
 		}
-		e.oblige(&Obl{Name: fmt.Sprintf("%s#loop%d.frame-%s:%s", tr.label, li.ordinal, what, key), Kind: "frame", Props: g.topTr.propsOf(),
-			Cond: cond, Goal: f, Fn: tr.label, Pos: g.topTr.contract.Where})
+		grp := frameGroup(key)
+		if _, seen := groups[grp]; !seen {
+			order = append(order, grp)
+		}
+		groups[grp] = append(groups[grp], f)
 	}
+	for _, grp := range order {
+		e.oblige(&Obl{Name: fmt.Sprintf("%s#loop%d.frame-%s:%s", tr.label, li.ordinal, what, grp), Kind: "frame", Props: g.topTr.propsOf(),
+			Cond: cond, Goal: and(groups[grp]...), Fn: tr.label, Pos: g.topTr.contract.Where})
+	}
+}
+
+func frameGroup(key string) string {
+	if !strings.HasPrefix(key, "elems$") && !strings.HasPrefix(key, "G$") && !strings.HasPrefix(key, "map$") {
+		if i := strings.Index(key, "."); i >= 0 {
+			if j := strings.Index(key[i+1:], "."); j >= 0 {
+				return key[:i+1+j] + ".*"
+			}
+		}
+	}
+	return key
 }
 
 func (tr *Trans) frameObligations(ct *Contract) {
@@ -293,6 +313,10 @@ func (tr *Trans) frameObligations(ct *Contract) {
 	if all {
 		return
 	}
+	// one obligation per group of keys: fields of one struct type are grouped, element arrays, maps and ghosts stand alone
+	groups := map[string][]Term{}
+	groupVals := map[string][]NamedTerm{}
+	var order []string
 	for _, key := range sortedKeys(g.touched) {
 		sort := g.touched[key]
 		if keyIsLocal(key) || key == "$wm" {
@@ -319,8 +343,23 @@ func (tr *Trans) frameObligations(ct *Contract) {
 		if skip {
 			continue
 		}
-		e.oblige(&Obl{Name: fmt.Sprintf("%s#frame:%s", tr.label, key), Kind: "frame", Props: tr.propsOf(), Cond: tTrue,
-			Goal: and(parts...), Fn: tr.label, Pos: ct.Where, Values: vals})
+		grp := key
+		if !strings.HasPrefix(key, "elems$") && !strings.HasPrefix(key, "G$") && !strings.HasPrefix(key, "map$") {
+			if i := strings.Index(key, "."); i >= 0 {
+				if j := strings.Index(key[i+1:], "."); j >= 0 {
+					grp = key[:i+1+j] + ".*" // pkg.Type.*
+				}
+			}
+		}
+		if _, ok := groups[grp]; !ok {
+			order = append(order, grp)
+		}
+		groups[grp] = append(groups[grp], and(parts...))
+		groupVals[grp] = append(groupVals[grp], vals...)
+	}
+	for _, grp := range order {
+		e.oblige(&Obl{Name: fmt.Sprintf("%s#frame:%s", tr.label, grp), Kind: "frame", Props: tr.propsOf(), Cond: tTrue,
+			Goal: and(groups[grp]...), Fn: tr.label, Pos: ct.Where, Values: groupVals[grp]})
 	}
 	if g.havocAllSeen {
 		e.oblige(&Obl{Name: fmt.Sprintf("%s#frame:no-unknown-effects", tr.label), Kind: "frame", Props: tr.propsOf(), Cond: tTrue,
